@@ -428,3 +428,70 @@ Proof.
         -- vm_compute; repeat constructor.
       * exists (encode_params (p :: ps)). split; [reflexivity|]. apply parse_query_encode; [discriminate | exact Hb].
 Qed.
+
+(* ---------- the same with the modelled validator: the premise about the registry is a theorem ---------- *)
+
+Section WithGoValidator.
+  Variable avail : str -> bool.
+  Variable ip6 : str -> bool.
+  Notation vr := (go_valid_registry ip6).
+  Notation clean := (vr_clean ip6).
+
+  Theorem desc_op_requests_exact_go op plain breg brepo d a1 num :
+    vr breg = true -> valid_repository brepo = true -> valid_digest avail d = true ->
+    bytes a1 -> bytes num -> (op = DMount -> valid_repository a1 = true) ->
+    exists u q,
+      desc_op_requests op plain (mkRef breg brepo []) d a1 num = [(desc_op_method op, u)] /\
+      url_split u = Some (mkParts (scheme plain) (host_of breg) (path_of brepo (desc_op_slot op d)) q None) /\
+      split_on c_slash (path_of brepo (desc_op_slot op d)) = [[]; b "v2"] ++ split_on c_slash brepo ++ desc_op_slot op d /\
+      contains c_at (host_of breg) = false /\
+      match desc_op_params op d a1 num with
+      | [] => q = None
+      | ps => exists qs, q = Some qs /\ parse_query qs = Some ps
+      end.
+  Proof. exact (desc_op_requests_exact avail vr clean op plain breg brepo d a1 num). Qed.
+
+  Theorem reg_op_requests_exact_go op plain reg a1 num :
+    vr reg = true -> bytes a1 -> bytes num ->
+    exists u q,
+      reg_op_requests op plain reg a1 num = [(m_get, u)] /\
+      url_split u = Some (mkParts (scheme plain) (host_of reg) (reg_op_path op) q None) /\
+      contains c_at (host_of reg) = false /\
+      match reg_op_params op a1 num with
+      | [] => q = None
+      | ps => exists qs, q = Some qs /\ parse_query qs = Some ps
+      end.
+  Proof. exact (reg_op_requests_exact vr op plain reg a1 num clean). Qed.
+
+  (* a Repository made by NewRepository(s0), then any history of calls: everything stays in the base *)
+  Theorem new_repository_session_in_base s0 base plain cs :
+    new_repository avail vr s0 = Some base -> Forall (call_ok avail) cs ->
+    Forall (fun mu => in_base_slot plain (r_registry base) (r_repository base) (snd mu))
+           (session_requests avail vr plain (r_registry base) (r_repository base) cs).
+  Proof.
+    intros H Hc. destruct (new_repository_base_ok avail vr s0 base H) as [Hr Hp].
+    exact (session_in_base avail vr clean plain (r_registry base) (r_repository base) Hr Hp cs Hc).
+  Qed.
+
+  Theorem new_repository_oras_tag_in_base s0 base plain src dsts served :
+    new_repository avail vr s0 = Some base ->
+    Forall (fun mu => in_base_slot plain (r_registry base) (r_repository base) (snd mu))
+           (oras_tag_requests avail vr plain (r_registry base) (r_repository base) src dsts served).
+  Proof.
+    intro H. destruct (new_repository_base_ok avail vr s0 base H) as [Hr Hp].
+    exact (oras_tag_in_base avail vr clean plain (r_registry base) (r_repository base) Hr Hp src dsts served).
+  Qed.
+
+  Theorem url_referrers_at_exact_go plain s r at_ :
+    parse avail vr s = Some r -> r_reference r <> [] -> at_ <> [] -> bytes at_ ->
+    url_split (url_referrers_at plain r at_)
+    = Some (mkParts (scheme plain) (host_of (r_registry r))
+              (b "/v2/" ++ r_repository r ++ b "/referrers/" ++ r_reference r)
+              (Some (b "artifactType=" ++ query_escape at_)) None) /\
+    query_unescape (query_escape at_) = Some at_.
+  Proof.
+    intros H Hne Ha Hb.
+    destruct (url_referrers_at_exact avail vr clean plain r at_ (parse_wf avail vr s r H) Hne Ha Hb) as (A & B & _).
+    split; assumption.
+  Qed.
+End WithGoValidator.
